@@ -208,6 +208,8 @@ def rules(ctx):
         flownet.need(ctx, "R4.trip-%s-capped-by-trip-limit" % fld.replace("_", "-"), edges, "trip", fld, [call(NW_MFC)],
                      "lower and upper bound of a trip edge are capped by the same (per-trip) formation limit, else lower > upper and the "
                      "circulation is infeasible (network_simplex(..).unwrap() panics)")
+    from .C12 import distance_sub_keeps_infinity
+    distance_sub_keeps_infinity(ctx, "R1")      # tours at the overflow depot are edited without a panic
     from .C09 import cost_delta_form, source_sets
     cost_delta_form(ctx, common.sites_of(ctx, SCHEDULE))
     # costs are unsigned: an incremental helper that prices a node differently from the definition subtracts more than was added
